@@ -30,6 +30,7 @@ import CtyModel.Lemmas.d14Glue
 import CtyModel.Lemmas.d14Dispatch
 import CtyModel.Lemmas.d14bRef
 import CtyModel.Lemmas.d14bJoin
+import CtyModel.Lemmas.d14bDuration
 import CtyModel.Props.C02
 namespace CtyModel
 namespace C14
@@ -1266,6 +1267,42 @@ example : joinImpl ⟨id, fun _ => [], id, id, id, id, fun a _ => a, fun a _ => 
     fun _ _ => ⟨[], false⟩, fun v _ => v, fun v _ => v, fun _ => "", id⟩ [sv "-", strList ["a", "b"], strList [], strList ["c"]] =
     .ok (sv "a-b-c") := by decide
 example : chompChars "ab\r\n\n\r".toList = "ab".toList ∧ chompChars "a\nb".toList = "a\nb".toList := by decide
+
+open D14b in
+/-- `timeadd` fails exactly when the timestamp is not RFC 3339 or `time.ParseDuration` refuses the
+duration — the verdict computed by the transliteration `durAccepts` (grammar, unit table, "0",
+every overflow test), not recorded from the library — and otherwise returns the library's sum. -/
+theorem timeadd_error_domain (L : Lib) (ts d : String) :
+    timeAddImpl (refLibDur L) [sv ts, sv d] =
+      (match L.parseTimestamp ts with
+       | none => .err "not a valid RFC3339 timestamp"
+       | some _ =>
+         if (durAccepts d.toList).getD false = false then .err "time.ParseDuration"
+         else .ok (stringVal L.nfc (L.timeAdd ts d))) := timeAddImpl_ref L ts d
+
+open D14b in
+/-- The duration grammar, part 1: a duration must start, after an optional sign, with a digit or a
+period; and the units are exactly ns, us, µs (U+00B5), μs (U+03BC), ms, s, m, h. -/
+theorem duration_start_and_units (c : Char) (cs u : List Char) (k : Nat) :
+    (c ≠ '-' → c ≠ '+' → c ≠ '.' → isDig c = false → durAccepts (c :: cs) = some false) ∧
+    (unitOf u = some k →
+      (u, k) ∈ [(['n', 's'], 1), (['u', 's'], 1000), (['µ', 's'], 1000), (['μ', 's'], 1000), (['m', 's'], 1000000),
+        (['s'], 1000000000), (['m'], 60000000000), (['h'], 3600000000000)]) :=
+  ⟨durAccepts_bad_start c cs, unitOf_some u k⟩
+
+open D14b in
+/-- The duration grammar, part 2 — the corner cases of the Go code, evaluated: the bare "0" with
+any sign is a duration, the empty string and a bare sign are not; a number needs a unit and digits
+(".s", "1", "1h1"); several terms and fractions are fine; the range is that of int64 nanoseconds,
+asymmetric (−2^63 is a duration, 2^63 is not), for one term and for a sum. -/
+theorem duration_corner_cases :
+    (["0", "+0", "-0", "1h", "-1h30m", "+1.5h", ".5s", "1.s", "1µs", "1μs", "1.5h30.25m",
+      "9223372036854775807ns", "-9223372036854775808ns", "2562047h47m16s854ms775us807ns",
+      "-2562047h47m16s854ms775us808ns"].all fun s => durAccepts s.toList == some true) = true ∧
+    (["", "-", "+", "00", "1", ".s", "-.s", "1x", "1hh", "1h1", "1h.", "1.0.5s", "1e3s", " 1s", "1s ", "1H", "1d",
+      "9223372036854775808ns", "-9223372036854775809ns", "92233720368547758080ns", "2562048h",
+      "2562047h47m16s854ms775us808ns", "2562047h2562047h"].all fun s => durAccepts s.toList == some false) = true := by
+  decide
 
 -- d14b examples: the hypotheses are jointly satisfiable, and the functions compute
 open D14b in
